@@ -442,6 +442,21 @@ class Repo:
                     return UNKNOWN
                 out[kv] = vv
             return out
+        if isinstance(expr, ast.IfExp):
+            t = ev(expr.test)
+            if t is UNKNOWN or isinstance(t, (dict, list)):
+                return UNKNOWN
+            return ev(expr.body if t else expr.orelse)
+        if isinstance(expr, ast.Compare) and len(expr.ops) == 1 and isinstance(expr.ops[0], (ast.Is, ast.IsNot, ast.Eq, ast.NotEq)):
+            a, b = ev(expr.left), ev(expr.comparators[0])
+            if a is UNKNOWN or b is UNKNOWN or isinstance(a, (dict, list)) or isinstance(b, (dict, list)):
+                return UNKNOWN
+            op = expr.ops[0]
+            if isinstance(op, ast.Is):
+                return a is b
+            if isinstance(op, ast.IsNot):
+                return a is not b
+            return (a == b) if isinstance(op, ast.Eq) else (a != b)
         if isinstance(expr, ast.JoinedStr):
             parts = []
             for v in expr.values:
